@@ -100,9 +100,70 @@ func (c *Ctx) Part(name string, n int64, f func(i int64, r *Rng)) {
 			continue
 		}
 		c.curCase = name + ":" + strconv.FormatInt(i, 10)
-		f(i, NewRng(c.Seed, HashStr(c.ID), HashStr(name), uint64(i)))
+		c.guarded(func() { f(i, NewRng(c.Seed, HashStr(c.ID), HashStr(name), uint64(i))) })
 	}
 	c.curCase = ""
+}
+
+// guarded runs one case. A panic raised inside the emulator's own code while the monitor was
+// driving it is a refutation of the property being monitored (the emulator produced no
+// behaviour at all); a panic raised in harness code is re-thrown and ends the worker, which the
+// parent reports as inconclusive.
+func (c *Ctx) guarded(f func()) {
+	defer func() {
+		r := recover()
+		if r == nil {
+			return
+		}
+		buf := make([]byte, 1<<16)
+		buf = buf[:runtime.Stack(buf, false)]
+		where := panicOrigin(string(buf))
+		if !strings.Contains(where, "github.com/scottyw/tetromino/") {
+			panic(fmt.Sprintf("%v\n(harness panic in case %s)\n%s", r, c.curCase, buf))
+		}
+		msg := fmt.Sprint(r)
+		cls := msg
+		if k := strings.IndexAny(cls, "[:"); k > 0 {
+			cls = cls[:k]
+		}
+		c.Count("emulator_panics", 1)
+		c.Violate("emulator-panic-"+sanitize(strings.TrimSpace(cls))+"-"+sanitize(filepathBase(where)), fmt.Sprintf("the emulator panicked in %s: %s", where, msg), map[string]any{"stack": string(buf)})
+	}()
+	f()
+}
+
+func filepathBase(fn string) string {
+	if k := strings.LastIndex(fn, "/"); k >= 0 {
+		fn = fn[k+1:]
+	}
+	return fn
+}
+
+// panicOrigin returns the function in which the panic was raised: the first frame below the
+// runtime's own panic machinery.
+func panicOrigin(stack string) string {
+	lines := strings.Split(stack, "\n")
+	seenPanic := false
+	for _, ln := range lines {
+		if strings.HasPrefix(ln, "\t") || ln == "" || strings.HasPrefix(ln, "goroutine ") {
+			continue
+		}
+		fn := ln
+		if k := strings.LastIndex(fn, "("); k > 0 {
+			fn = fn[:k]
+		}
+		if strings.HasPrefix(fn, "panic") || strings.HasPrefix(fn, "runtime.") {
+			if strings.HasPrefix(fn, "panic") || strings.Contains(fn, "gopanic") || strings.Contains(fn, "panic") {
+				seenPanic = true
+			}
+			continue
+		}
+		if !seenPanic {
+			continue
+		}
+		return fn
+	}
+	return ""
 }
 
 // Eval counts n oracle evaluations.
